@@ -925,25 +925,57 @@ func chainRule(c *core.Ctx) {
 					}
 				}
 			}
-			isEmptyInput := func(cond ssa.Value) bool {
+			// +1: the true edge means "input empty", -1: the false edge does, 0: not an emptiness test
+			emptyEdge := func(cond ssa.Value) int {
 				bo, ok := cond.(*ssa.BinOp)
-				if !ok || bo.Op != token.EQL {
-					return false
+				if !ok {
+					return 0
 				}
-				for _, pair := range [][2]ssa.Value{{bo.X, bo.Y}, {bo.Y, bo.X}} {
-					if call, ok := pair[0].(*ssa.Call); ok {
-						if bi, ok := call.Call.Value.(*ssa.Builtin); ok && bi.Name() == "len" {
-							if k, ok := constInt(pair[1]); ok && k == 0 {
-								if p, ok := call.Call.Args[0].(*ssa.Parameter); ok && !written[p] {
-									return true
-								}
-							}
+				x, y, op := bo.X, bo.Y, bo.Op
+				if _, isK := x.(*ssa.Const); isK {
+					x, y = y, x
+					op = map[token.Token]token.Token{token.LSS: token.GTR, token.GTR: token.LSS, token.LEQ: token.GEQ, token.GEQ: token.LEQ, token.EQL: token.EQL, token.NEQ: token.NEQ}[op]
+				}
+				if call, ok := x.(*ssa.Call); ok {
+					bi, isB := call.Call.Value.(*ssa.Builtin)
+					k, isK := constInt(y)
+					if !isB || bi.Name() != "len" || !isK {
+						return 0
+					}
+					if p, ok := call.Call.Args[0].(*ssa.Parameter); !ok || written[p] {
+						return 0
+					}
+					switch {
+					case (op == token.EQL && k == 0) || (op == token.LSS && k == 1) || (op == token.LEQ && k == 0):
+						return 1
+					case (op == token.NEQ && k == 0) || (op == token.GEQ && k == 1) || (op == token.GTR && k == 0):
+						return -1
+					}
+					return 0
+				}
+				if p, ok := x.(*ssa.Parameter); ok && !written[p] {
+					if k, ok := y.(*ssa.Const); ok && k.Value != nil && k.Value.Kind() == constant.String && constant.StringVal(k.Value) == "" {
+						switch op {
+						case token.EQL:
+							return 1
+						case token.NEQ:
+							return -1
 						}
 					}
-					if p, ok := pair[0].(*ssa.Parameter); ok {
-						if k, ok := pair[1].(*ssa.Const); ok && k.Value != nil && k.Value.Kind() == constant.String && constant.StringVal(k.Value) == "" && !written[p] {
-							return true
-						}
+				}
+				return 0
+			}
+			emptyEstablished := func(b *ssa.BasicBlock) bool {
+				for d := b; d.Idom() != nil; d = d.Idom() {
+					id := d.Idom()
+					ifi, ok := id.Instrs[len(id.Instrs)-1].(*ssa.If)
+					if !ok {
+						continue
+					}
+					e := emptyEdge(ifi.Cond)
+					vt, vf := viaEdge(id, d)
+					if (e == 1 && vt) || (e == -1 && vf) {
+						return true
 					}
 				}
 				return false
@@ -956,7 +988,7 @@ func chainRule(c *core.Ctx) {
 				if loopHead != nil && loopHead.Dominates(b) {
 					continue
 				}
-				if !establishedTrue(b, isEmptyInput) {
+				if !emptyEstablished(b) {
 					problems = append(problems, "success is answered at "+c.Prog.Pos(ret.Pos())+" without the input having been walked and without the input found empty: the text is dropped silently")
 				}
 			}
